@@ -57,3 +57,19 @@ def discharge_path_obligations(path, rep, function, solve_mod, timeout, on_sat=N
         res = solve_mod.discharge(ob['pc'], ob['goal'], extra=extra, timeout_ms=timeout)
         rep.obligation(ob['name'], function, ob['kind'], res, sample=ob['meta'].get('text'))
         if res['result'] == 'sat' and on_sat is not None: on_sat(ob, res)
+
+class LoopCutAt:
+    """loop cut for a loop with a CONCRETE iteration list, one exploration per iteration index k (complete induction by case split over k):
+    establish Inv(0) on the entry state; set the state to Inv(k); run the body on element k; assert Inv(k+1); set the state to Inv(n); continue.
+    The caller runs it for every k in range(n) (and with k=None for a zero-iteration check of establish + exit only)."""
+    def __init__(self, name, k, establish, havoc, preserve):
+        self.name = name; self.k = k; self.establish = establish; self.havoc = havoc; self.preserve = preserve; self.entered = 0; self.n = None
+    def iterate(self, it):
+        self.entered += 1
+        items = list(it); self.n = len(items)
+        self.establish()
+        if self.k is not None and self.k < len(items):
+            self.havoc(self.k)
+            yield items[self.k]
+            self.preserve(self.k)
+        self.havoc(len(items))
